@@ -11,6 +11,19 @@ import (
 
 const maxUint32 = 1 << 32
 
+// maxPrealloc caps how many elements decoders allocate up front for a count
+// read from the input. The count is not trusted: slices grow as elements are
+// actually decoded, so that a forged count cannot make a decoder allocate
+// memory out of proportion to the bytes it was given.
+const maxPrealloc = 1024
+
+func preallocCount(n uint32) uint32 {
+	if n > maxPrealloc {
+		return maxPrealloc
+	}
+	return n
+}
+
 // UintListEncoder encodes string slice. Max bytes size for each string is 65536 bytes
 type UintListEncoder struct {
 	buf []byte
@@ -58,6 +71,7 @@ func NewUintListDecoder(reuseRecords bool) *UintListDecoder {
 }
 
 func (d *UintListDecoder) makeUintSlice(n uint32) []uint32 {
+	n = preallocCount(n)
 	if d.sl == nil {
 		return make([]uint32, 0, n)
 	}
